@@ -16,6 +16,7 @@ import (
 	"crypto/cipher"
 	crand "crypto/rand"
 	"crypto/sha256"
+	"encoding/binary"
 	"encoding/hex"
 	"errors"
 	"fmt"
@@ -25,6 +26,7 @@ import (
 	"os"
 	"strconv"
 	"strings"
+	"sync"
 	"testing"
 	"time"
 
@@ -1152,7 +1154,14 @@ func (h *c15) queryNames(resp *responder.Responder, domain dns.Name) {
 		line := fmt.Sprintf("codec|sendname|%s|%s", vlib.Hex(enc), showName(domain))
 		conn := &captureConn{}
 		c := &DNSPacketConn{domain: domain}
-		err := c.send(conn, p)
+		var err error
+		before := h.withRand(func() { err = c.send(conn, p) }) // the query ID is the first two bytes send draws
+		qline := fmt.Sprintf("codec|query|%s|%s|%d", vlib.Hex(enc), showName(domain), binary.BigEndian.Uint16(before.Bytes(2)))
+		if err != nil {
+			h.out.Case(qline, "err "+c15Err(err), false)
+		} else if len(conn.wrote) == 1 {
+			h.out.Case(qline, "ok "+vlib.Hex(conn.wrote[0]), true)
+		}
 		// spec: name = labels of <= 63 base32 characters + domain, <= 255 octets in all
 		labels := chunks(bytes.ToLower(enc), 63)
 		fits := nameSpecValid(append(append([][]byte{}, labels...), domain...))
@@ -1175,7 +1184,16 @@ func (h *c15) queryNames(resp *responder.Responder, domain dns.Name) {
 			continue
 		}
 		h.out.Case(line, "ok "+showName(q.Question[0].Name), true)
-		_, payload := resp.VerifResponseFor(&q)
+		rmsg, payload := h.respFor(resp, &q, domain)
+		if rmsg != nil && (n%7 == 0 || n < 4) {
+			h.responses(resp, rmsg, domain)
+		}
+		if n%5 == 0 || n < 3 {
+			h.oddQueries(resp, &q, domain)
+		}
+		if n%16 == 0 || n == 147 {
+			h.lenient(conn.wrote[0])
+		}
 		rans := "none"
 		if pre, ok := q.Question[0].Name.TrimSuffix(domain); ok {
 			rans = "ok " + vlib.Hex(bytes.ToUpper(bytes.Join(pre, nil)))
@@ -1199,88 +1217,577 @@ func (h *c15) queryNames(resp *responder.Responder, domain dns.Name) {
 	}
 }
 
+// lenient: RecvAndRespond only logs a parse error and goes on with whatever MessageFromWireFormat
+// returned next to it (the header and the entries read before the failure; the whole message when the
+// error is "trailing bytes"). The model mirrors that (lenientParse); here every truncation of a real
+// query and the query followed by further bytes.
+func (h *c15) lenient(query []byte) {
+	try := func(buf []byte) {
+		buf = exactCap(buf)
+		var m dns.Message
+		ans := guard(func() string {
+			m, _ = dns.MessageFromWireFormat(buf)
+			return showMsg(&m)
+		})
+		h.out.Case("codec|lenient|"+vlib.Hex(buf), ans, len(m.Question) > 0)
+		h.out.Count("msg:lenient-parse")
+	}
+	for k := 0; k <= len(query); k++ {
+		try(query[:k])
+	}
+	for _, extra := range [][]byte{{0}, h.r.Bytes(1 + h.r.Intn(20)), query} {
+		try(append(append([]byte(nil), query...), extra...))
+	}
+}
+
+func cloneMsg(m *dns.Message) *dns.Message {
+	c := *m
+	c.Question = append([]dns.Question(nil), m.Question...)
+	c.Answer = append([]dns.RR(nil), m.Answer...)
+	c.Authority = append([]dns.RR(nil), m.Authority...)
+	c.Additional = append([]dns.RR(nil), m.Additional...)
+	return &c
+}
+
+// respFor: responseFor of the real responder on q, as a correspondence case (the base32 decoding of the
+// text in front of the domain is handed to the model as a table)
+func (h *c15) respFor(resp *responder.Responder, q *dns.Message, domain dns.Name) (*dns.Message, []byte) {
+	tb := table{}
+	if len(q.Question) == 1 {
+		if pre, ok := q.Question[0].Name.TrimSuffix(domain); ok {
+			text := bytes.ToUpper(bytes.Join(pre, nil))
+			dec := make([]byte, base32Encoding.DecodedLen(len(text)))
+			if n, err := base32Encoding.Decode(dec, text); err != nil {
+				tb["b32:"+hx(text)] = "FAIL"
+			} else {
+				tb["b32:"+hx(text)] = hx(dec[:n])
+			}
+		}
+	}
+	line := fmt.Sprintf("codec|respfor|%s|%s|%d|%s", showMsg(q), showName(domain), resp.VerifMaxUDPPayload(), tb)
+	var rmsg *dns.Message
+	var payload []byte
+	ans := guard(func() string {
+		rmsg, payload = resp.VerifResponseFor(cloneMsg(q))
+		if rmsg == nil {
+			return "nil"
+		}
+		pl := "none"
+		if payload != nil {
+			pl = vlib.Hex(payload)
+		}
+		return "resp " + showMsg(rmsg) + " " + pl
+	})
+	h.out.Case(line, ans, payload != nil)
+	if strings.HasPrefix(ans, "panic") {
+		h.out.Checked()
+		h.out.OracleFail("C15:decoder-panics:responsefor", "responseFor panics on a parsed query: "+ans, line)
+		return nil, nil
+	}
+	h.out.Count("respfor:" + strings.SplitN(ans, " ", 2)[0])
+	return rmsg, payload
+}
+
+// oddQueries: the query of a real packet with one thing wrong at a time; no payload may come out of a
+// query that is not a plain TXT question under the domain, and the model must agree on the answer
+func (h *c15) oddQueries(resp *responder.Responder, q *dns.Message, domain dns.Name) {
+	opt := dns.RR{Name: dns.Name{}, Type: dns.RRTypeOPT, Class: 4096, Data: []byte{}}
+	muts := []func(m *dns.Message) bool{ // true: a payload may still be extracted
+		func(m *dns.Message) bool { m.Flags |= 0x8000; return false },
+		func(m *dns.Message) bool { m.Flags |= uint16(1+h.r.Intn(15)) << 11; return false },
+		func(m *dns.Message) bool { m.Question = append(m.Question, m.Question[0]); return false },
+		func(m *dns.Message) bool { m.Question = nil; return false },
+		func(m *dns.Message) bool { m.Question[0].Type = uint16([]int{1, 2, 15, 17, 28, 255}[h.r.Intn(6)]); return false },
+		func(m *dns.Message) bool { m.Question[0].Class = uint16(h.r.Intn(5)); return true },
+		func(m *dns.Message) bool { m.Additional = nil; return false },
+		func(m *dns.Message) bool { m.Additional = append(m.Additional, opt); return false },
+		func(m *dns.Message) bool { m.Additional[0].TTL = uint32(1+h.r.Intn(255)) << 16; return false },
+		func(m *dns.Message) bool { m.Additional[0].TTL = uint32(h.r.U64()) &^ 0x00ff0000; return true },
+		func(m *dns.Message) bool {
+			c := []int{0, 511, 512, 1231, 1232, 1233, 4096, 65535}[h.r.Intn(8)]
+			m.Additional[0].Class = uint16(c)
+			return c >= 1232
+		},
+		func(m *dns.Message) bool { // an unrelated record in front of the OPT
+			m.Additional = append([]dns.RR{{Name: domain, Type: 1, Class: 1, Data: []byte{1, 2, 3, 4}}}, m.Additional...)
+			return true
+		},
+		func(m *dns.Message) bool { // another domain
+			n := m.Question[0].Name
+			m.Question[0].Name = append(append(dns.Name{}, n[:len(n)-1]...), []byte("org"))
+			return false
+		},
+		func(m *dns.Message) bool { // the domain in another case
+			n := append(dns.Name{}, m.Question[0].Name...)
+			n[len(n)-1] = bytes.ToUpper(n[len(n)-1])
+			m.Question[0].Name = n
+			return true
+		},
+		func(m *dns.Message) bool { // labels in upper / mixed case
+			n := append(dns.Name{}, m.Question[0].Name...)
+			if len(n) > len(domain) {
+				n[0] = bytes.ToUpper(n[0])
+			}
+			m.Question[0].Name = n
+			return true
+		},
+		func(m *dns.Message) bool { // text that is not base32
+			n := append(dns.Name{[]byte([]string{"!", "1", "abc=", "8", "aa-"}[h.r.Intn(5)])}, domain...)
+			m.Question[0].Name = n
+			return false
+		},
+		func(m *dns.Message) bool { m.Question[0].Name = domain; return true }, // nothing in front of the domain
+	}
+	for k, mut := range muts {
+		m := cloneMsg(q)
+		may := mut(m)
+		_, payload := h.respFor(resp, m, domain)
+		h.out.Checked()
+		if payload != nil && !may {
+			h.out.OracleFail("C15:query-payload-from-odd-query", fmt.Sprintf("responseFor extracts a payload from a query that is not a plain TXT query under the domain (kind %d)", k), "codec|respfor|"+showMsg(m))
+		}
+	}
+}
+
+// responses: the response packaging of the responder (dnsRespToUDPResp) against the payload extraction
+// of the requester (MessageFromWireFormat + dnsResponsePayload), for payloads of every shape of the
+// TXT chunking; then the same response with one thing wrong at a time
+func (h *c15) responses(resp *responder.Responder, rmsg *dns.Message, domain dns.Name) {
+	for _, n := range []int{0, 1, h.r.Intn(254) + 1, 254, 255, 256, 509, 510, 511, h.r.Intn(900)} {
+		payload := h.r.Bytes(n)
+		r := cloneMsg(rmsg)
+		line := fmt.Sprintf("codec|udpresp|%s|%s", showMsg(r), vlib.Hex(payload))
+		var buf []byte
+		var err error
+		ans := guard(func() string {
+			buf, err = resp.VerifDNSRespToUDPResp(r, payload)
+			return okOrErr(buf, err)
+		})
+		h.out.Case(line, ans, err == nil)
+		h.out.Checked()
+		if err != nil || strings.HasPrefix(ans, "panic") {
+			h.out.OracleFail("C15:response-rejects-representable", fmt.Sprintf("dnsRespToUDPResp fails for a %d-byte payload: %s", n, ans), line)
+			continue
+		}
+		got := h.respPayload(buf, domain)
+		if rmsg.Rcode() == dns.RcodeNoError && !bytes.Equal(got, payload) {
+			h.out.OracleFail("C15:response-roundtrip", fmt.Sprintf("the requester extracts %d bytes from the response that carries a %d-byte payload", len(got), n), line)
+		}
+		h.out.Count("response:roundtrip")
+		// the same response, altered
+		back, perr := dns.MessageFromWireFormat(buf)
+		if perr != nil || len(back.Answer) != 1 {
+			continue
+		}
+		for _, mut := range []func(m *dns.Message){
+			func(m *dns.Message) { m.Flags &^= 0x8000 },
+			func(m *dns.Message) { m.Flags |= uint16(1 + h.r.Intn(15)) },
+			func(m *dns.Message) { m.Answer = append(m.Answer, m.Answer[0]) },
+			func(m *dns.Message) { m.Answer = nil },
+			func(m *dns.Message) { m.Answer[0].Type = uint16([]int{1, 5, 15, 17}[h.r.Intn(4)]) },
+			func(m *dns.Message) { m.Answer[0].Name = dns.Name{[]byte("other"), []byte("org")} },
+			func(m *dns.Message) { m.Answer[0].Data = m.Answer[0].Data[:len(m.Answer[0].Data)-1] },
+			func(m *dns.Message) { m.Answer[0].Data = append(append([]byte(nil), m.Answer[0].Data...), 7) },
+			func(m *dns.Message) { m.Answer[0].Data = nil },
+		} {
+			m := cloneMsg(&back)
+			mut(m)
+			if b2, e2 := m.WireFormat(); e2 == nil {
+				h.respPayload(b2, domain)
+			}
+		}
+	}
+}
+
+// respPayload: what recvLoop queues for a datagram (nil when it is dropped or carries no payload; in Go
+// an empty payload is nil as well)
+func (h *c15) respPayload(buf []byte, domain dns.Name) []byte {
+	buf = exactCap(buf)
+	var payload []byte
+	ans := guard(func() string {
+		m, err := dns.MessageFromWireFormat(buf)
+		if err == nil {
+			payload = dnsResponsePayload(&m, domain)
+		}
+		return "payload " + vlib.Hex(payload)
+	})
+	line := fmt.Sprintf("codec|resppayload|%s|%s", vlib.Hex(buf), showName(domain))
+	h.out.Case(line, ans, len(payload) > 0)
+	if strings.HasPrefix(ans, "panic") {
+		h.out.Checked()
+		h.out.OracleFail("C15:decoder-panics:response-payload", "the requester's response decoding panics: "+ans, line)
+	}
+	h.out.Count("response:payload-extraction")
+	return payload
+}
+
 // ---------------------------------------------------------------------------------------------
 // 6. the encrypted exchange over a loopback UDP socket
 
-func (h *c15) exchange(t *testing.T, privkey []byte, domain string) {
+// requestFits: does a request of n bytes fit a query under domain? Written down from the formats, not
+// taken from the code: Noise N adds a 32-byte ephemeral key and a 16-byte tag, the frame one byte; base32
+// without padding; labels of at most 63 characters; at most 255 octets of name.
+func requestFits(n int, domain dns.Name) bool {
+	packet := n + 32 + 16 + 1
+	if packet-1 > 255 {
+		return false
+	}
+	chars := (packet*8 + 4) / 5
+	total := 1
+	for _, l := range domain {
+		total += 1 + len(l)
+	}
+	return total+chars+(chars+62)/63 <= 255
+}
+
+// responseFits: does an answer of n bytes to a request of reqLen bytes fit the responder's datagram limit?
+// header 12, question (name + 4), answer (pointer 2 + 10 + TXT), OPT 11; TXT = one length byte per 255 bytes.
+func responseFits(reqLen, n int, domain dns.Name, limit int) bool {
+	packet := reqLen + 49
+	chars := (packet*8 + 4) / 5
+	name := 1 + chars + (chars+62)/63
+	for _, l := range domain {
+		name += 1 + len(l)
+	}
+	framed := n + 16 + 2
+	txt := framed + (framed+254)/255
+	return 12+name+4+2+10+txt+11 <= limit
+}
+
+// chanConn: the datagram socket between requester and responder, in memory (nothing is ever lost, so an
+// exchange that does not complete is a hang and not a dropped datagram)
+type chanAddr struct{}
+
+func (chanAddr) Network() string { return "chan" }
+func (chanAddr) String() string  { return "responder.mem" }
+
+type chanConn struct {
+	in, out chan []byte
+	closed  chan struct{}
+}
+
+func (c *chanConn) Read(p []byte) (int, error) {
+	select {
+	case b := <-c.in:
+		return copy(p, b), nil
+	case <-c.closed:
+		return 0, io.EOF
+	}
+}
+func (c *chanConn) Write(p []byte) (int, error) {
+	select {
+	case c.out <- append([]byte(nil), p...):
+		return len(p), nil
+	case <-c.closed:
+		return 0, io.ErrClosedPipe
+	}
+}
+func (c *chanConn) ReadFrom(p []byte) (int, net.Addr, error) { n, err := c.Read(p); return n, chanAddr{}, err }
+func (c *chanConn) WriteTo(p []byte, a net.Addr) (int, error) { return c.Write(p) }
+func (c *chanConn) Close() error {
+	select {
+	case <-c.closed:
+	default:
+		close(c.closed)
+	}
+	return nil
+}
+func (c *chanConn) LocalAddr() net.Addr                { return chanAddr{} }
+func (c *chanConn) RemoteAddr() net.Addr               { return chanAddr{} }
+func (c *chanConn) SetDeadline(t time.Time) error      { return nil }
+func (c *chanConn) SetReadDeadline(t time.Time) error  { return nil }
+func (c *chanConn) SetWriteDeadline(t time.Time) error { return nil }
+
+type c15Seen struct{ req []byte }
+
+// c15Link: one responder (the real RecvAndRespond) and a way to make requesters for it
+type c15Link struct {
+	h         *c15
+	name      string
+	domain    dns.Name
+	limit     int
+	mu        sync.Mutex
+	answer    []byte
+	got       chan c15Seen
+	newReq    func() (*Requester, error)
+	abandoned map[string]bool
+	lossy     bool      // a datagram may be lost (real socket): one exchange that does not complete is no verdict
+	client    *chanConn // mem link: the requester end that responses go to
+}
+
+// memServer: the responder's end of the in-memory link; a response goes to the current requester
+type memServer struct {
+	chanConn
+	l *c15Link
+}
+
+func (m *memServer) WriteTo(p []byte, a net.Addr) (int, error) {
+	m.l.mu.Lock()
+	c := m.l.client
+	m.l.mu.Unlock()
+	if c != nil {
+		select {
+		case c.in <- append([]byte(nil), p...):
+		case <-c.closed:
+		default:
+		}
+	}
+	return len(p), nil
+}
+
+func (l *c15Link) callback(b []byte) ([]byte, error) {
+	l.mu.Lock()
+	a := l.answer
+	l.mu.Unlock()
+	select {
+	case l.got <- c15Seen{append([]byte(nil), b...)}:
+	default:
+	}
+	return a, nil
+}
+
+type c15Res struct {
+	b   []byte
+	err error
+}
+
+// one exchange; ok = it completed within the limit
+func (l *c15Link) try(req *Requester, p []byte, limit time.Duration) (c15Res, bool) {
+	done := make(chan c15Res, 1)
+	go func() {
+		b, err := req.RequestAndRecv(p)
+		done <- c15Res{b, err}
+	}()
+	select {
+	case r := <-done:
+		return r, true
+	case <-time.After(limit):
+		return c15Res{}, false
+	}
+}
+
+func closeReq(req *Requester) {
+	defer func() { _ = recover() }() // Requester.Close dereferences a nil transport when nothing was ever sent
+	if req != nil && req.transport != nil {
+		_ = req.Close()
+	}
+}
+
+// exchange runs one request/response pair and judges it. completed=false: neither attempt came back.
+func (l *c15Link) exchange(req **Requester, p, answer []byte) (completed bool) {
+	h := l.h
+	replay := fmt.Sprintf("exchange|%s|%s|%s", l.name, vlib.Hex(p), vlib.Hex(answer))
+	l.mu.Lock()
+	l.answer = answer
+	l.mu.Unlock()
+	for len(l.got) > 0 {
+		<-l.got
+	}
+	fits := requestFits(len(p), l.domain)
+	first := 4 * time.Second
+	if !fits {
+		first = 5 * time.Second // nothing is sent for such a request: no datagram to lose, no second attempt
+	}
+	r, ok := l.try(*req, p, first)
+	if !ok {
+		// abandoned: its callback and its response may still arrive; a fresh requester has its own socket
+		l.abandoned[string(p)] = true
+		closeReq(*req)
+		nr, err := l.newReq()
+		if err != nil {
+			h.out.OracleFail("C15:exchange", "cannot make a second requester: "+err.Error(), replay)
+			return false
+		}
+		*req = nr
+		if !fits {
+			h.out.Checked()
+			h.out.Count("exchange:" + l.name + ":oversize-request-hangs")
+			h.out.OracleFail("C15:exchange-oversize-request-hangs",
+				fmt.Sprintf("a %d-byte request does not fit a query under %s; RequestAndRecv neither sends it nor returns an error: it never returns", len(p), l.domain.String()), replay)
+			return true
+		}
+		if r, ok = l.try(*req, p, 12*time.Second); !ok {
+			l.abandoned[string(p)] = true
+			closeReq(*req)
+			if nr, err := l.newReq(); err == nil {
+				*req = nr
+			}
+			h.out.Count("exchange:" + l.name + ":incomplete")
+			if !l.lossy {
+				h.out.Checked()
+				h.out.OracleFail("C15:exchange-never-completes", fmt.Sprintf("a %d-byte request with a %d-byte response over a link that loses nothing did not complete within 4 s and, repeated, within 12 s", len(p), len(answer)), replay)
+			}
+			return false
+		}
+		h.out.Count("exchange:" + l.name + ":completed-on-second-attempt")
+	}
+	h.out.Checked()
+	// what the responder's callback saw for this request
+	var seen [][]byte
+	for len(l.got) > 0 {
+		s := <-l.got
+		seen = append(seen, s.req)
+	}
+	same := func(a, b []byte) bool { return bytes.Equal(a, b) }
+	delivered, altered := false, []byte(nil)
+	for _, s := range seen {
+		switch {
+		case same(s, p):
+			delivered = true
+		case !l.abandoned[string(s)]:
+			altered = s
+		}
+	}
+	if !fits {
+		// a request the channel cannot carry: an error, and nothing (certainly nothing else) delivered
+		if r.err == nil || delivered || altered != nil {
+			h.out.OracleFail("C15:exchange-oversize-request-accepted", fmt.Sprintf("a %d-byte request does not fit a query under %s but RequestAndRecv returned err=%v (delivered=%v)", len(p), l.domain.String(), r.err, delivered || altered != nil), replay)
+		} else {
+			h.out.Count("exchange:" + l.name + ":oversize-request-refused")
+		}
+		return true
+	}
+	if altered != nil {
+		h.out.OracleFail("C15:exchange-request-altered", fmt.Sprintf("responder callback received %d bytes for a %d-byte request", len(altered), len(p)), replay)
+		return true
+	}
+	if !delivered {
+		h.out.OracleFail("C15:exchange", fmt.Sprintf("requester returned (err=%v) but the responder's callback never ran for the request", r.err), replay)
+		return true
+	}
+	rfits := responseFits(len(p), len(answer), l.domain, l.limit)
+	switch {
+	case !rfits && r.err != nil:
+		h.out.Count("exchange:" + l.name + ":oversize-response-refused")
+	case !rfits:
+		h.out.OracleFail("C15:exchange-oversize-response-accepted", fmt.Sprintf("a %d-byte response does not fit the %d-byte datagram limit, yet the requester got %d bytes and no error", len(answer), l.limit, len(r.b)), replay)
+	case r.err != nil || !same(r.b, answer):
+		h.out.OracleFail("C15:exchange-response-altered", fmt.Sprintf("requester received %d bytes (err=%v) for a %d-byte response", len(r.b), r.err, len(answer)), replay)
+	default:
+		h.out.Count("exchange:" + l.name + ":ok")
+	}
+	return true
+}
+
+// run: every request length up to the largest that fits and a few beyond, then random pairs; responses
+// around the chunking and datagram limits
+func (l *c15Link) run(all bool, nrandom int) {
+	h := l.h
+	req, err := l.newReq()
+	if err != nil {
+		h.out.OracleFail("C15:exchange", "cannot make a requester: "+err.Error(), "exchange|"+l.name)
+		return
+	}
+	defer func() { closeReq(req) }()
+	maxFit := 0
+	for requestFits(maxFit+1, l.domain) {
+		maxFit++
+	}
+	completedAny, failed, stopped := false, 0, false
+	do := func(reqLen, ansLen int) bool {
+		if failed >= 3 && !completedAny { // nothing gets through at all: do not wait for the rest
+			if l.lossy && !stopped {
+				h.out.OracleFail("C15:exchange-never-completes", "none of the first three exchanges over loopback UDP completed (each tried twice, 4 s and 12 s)", "exchange|"+l.name)
+			}
+			stopped = true
+			return false
+		}
+		if l.exchange(&req, h.r.Bytes(reqLen), h.r.Bytes(ansLen)) {
+			completedAny = true
+		} else {
+			failed++
+		}
+		return true
+	}
+	ansLens := []int{0, 1, 200, 234, 235, 236, 237, 238, 489, 490, 491, 492, 493, 800}
+	// the datagram limit for the shortest and the longest request
+	for _, rl := range []int{0, maxFit} {
+		edge := 0
+		for responseFits(rl, edge+1, l.domain, l.limit) {
+			edge++
+		}
+		for _, d := range []int{-1, 0, 1, 2, 60} {
+			if !do(rl, edge+d) {
+				return
+			}
+		}
+	}
+	if all {
+		for n := 0; n <= maxFit; n++ {
+			if !do(n, ansLens[n%len(ansLens)]) {
+				return
+			}
+		}
+	} else {
+		for _, n := range []int{0, 1, maxFit - 1, maxFit} {
+			if !do(n, ansLens[h.r.Intn(len(ansLens))]) {
+				return
+			}
+		}
+	}
+	// requests that do not fit the query name, and requests that do not even fit the frame
+	for _, n := range []int{maxFit + 1, maxFit + 2, 150, 207, 208, 255, 256, 1000} {
+		if !do(n, 10) {
+			return
+		}
+	}
+	for i := 0; i < nrandom; i++ {
+		if !do(h.r.Intn(maxFit+1), h.r.Intn(1400)) {
+			return
+		}
+	}
+	if failed*2 > nrandom+10 && l.lossy {
+		h.out.OracleFail("C15:exchange-never-completes", fmt.Sprintf("%d exchanges over loopback UDP did not complete (each tried twice, 4 s and 12 s)", failed), "exchange|"+l.name)
+	}
+}
+
+func (h *c15) newLink(t *testing.T, privkey []byte, domain string, mem bool) *c15Link {
 	resp, err := responder.NewDnsResponder(domain, "127.0.0.1:0", privkey)
 	if err != nil {
-		h.out.Note("exchange skipped: cannot listen on loopback UDP: " + err.Error())
-		return
+		// a clause of the property that is not exercised must not look like a pass
+		t.Fatalf("the exchange clause cannot be exercised: responder.NewDnsResponder: %v", err)
 	}
-	defer resp.Close()
-	type seen struct{ req []byte }
-	got := make(chan seen, 64)
-	var answer []byte
-	go func() {
-		_ = resp.RecvAndRespond(func(b []byte) ([]byte, error) {
-			got <- seen{append([]byte(nil), b...)}
-			return answer, nil
-		})
-	}()
-	req, err := NewRequester(&Config{TransportMethod: UDP, Target: resp.VerifLocalAddr().String(), BaseDomain: domain,
-		Pubkey: encryption.PubkeyFromPrivkey(privkey)})
+	t.Cleanup(func() { resp.Close() })
+	dom, _ := dns.ParseName(domain)
+	l := &c15Link{h: h, name: "udp", domain: dom, limit: resp.VerifMaxUDPPayload(), got: make(chan c15Seen, 256), abandoned: map[string]bool{}, lossy: true}
+	pub := encryption.PubkeyFromPrivkey(privkey)
+	if mem {
+		l.name, l.lossy = "mem", false
+		toResp := make(chan []byte, 64)
+		_ = resp.Close() // the socket NewDnsResponder opened is not used
+		server := &memServer{chanConn: chanConn{in: toResp, closed: make(chan struct{})}, l: l}
+		resp.VerifSetTransport(server)
+		l.newReq = func() (*Requester, error) {
+			// the client end of the link; the requester's own packet layer (DNSPacketConn) on top of it
+			client := &chanConn{in: make(chan []byte, 64), out: toResp, closed: make(chan struct{})}
+			l.mu.Lock()
+			if l.client != nil {
+				_ = l.client.Close() // ends the packet layer of an abandoned requester
+			}
+			l.client = client
+			l.mu.Unlock()
+			return &Requester{transport: NewDNSPacketConn(client, chanAddr{}, dom), remoteAddr: chanAddr{}, pubkey: pub}, nil
+		}
+	} else {
+		target := resp.VerifLocalAddr().String()
+		l.newReq = func() (*Requester, error) {
+			return NewRequester(&Config{TransportMethod: UDP, Target: target, BaseDomain: domain, Pubkey: pub})
+		}
+	}
+	go func() { _ = resp.RecvAndRespond(l.callback) }()
+	return l
+}
+
+func (h *c15) exchanges(t *testing.T, privkey []byte, domain string) {
+	pc, err := net.ListenPacket("udp", "127.0.0.1:0")
 	if err != nil {
-		h.out.Note("exchange skipped: " + err.Error())
-		return
+		t.Fatalf("the exchange clause cannot be exercised: no UDP socket on loopback: %v", err)
 	}
-	incomplete := 0
-	n := vlib.Budget(40, 400)
-	for i := 0; i < n; i++ {
-		reqLen := h.r.Intn(98) // Noise N adds 48 bytes, the frame 1; 97 is the largest that fits under t.example.com
-		if i < 98 && vlib.Tier() == "thorough" {
-			reqLen = i
-		}
-		p := h.r.Bytes(reqLen)
-		// a response of up to 900 bytes fits the 1232-byte datagram whatever the query name; a longer one may
-		// not, and then the requester must get an error, never other bytes
-		answer = h.r.Bytes(h.r.Intn(1300))
-		type res struct {
-			b   []byte
-			err error
-		}
-		done := make(chan res, 1)
-		go func() {
-			b, err := req.RequestAndRecv(p)
-			done <- res{b, err}
-		}()
-		select {
-		case r := <-done:
-			h.out.Checked()
-			var s seen
-			select {
-			case s = <-got:
-			default:
-				h.out.OracleFail("C15:exchange", "requester returned but the responder's callback never ran", fmt.Sprintf("reqlen=%d", reqLen))
-				continue
-			}
-			if !bytes.Equal(s.req, p) && !(len(s.req) == 0 && len(p) == 0) {
-				h.out.OracleFail("C15:exchange-request-altered", fmt.Sprintf("responder callback received %d bytes for a %d-byte request", len(s.req), len(p)), "req="+vlib.Hex(p))
-			}
-			switch {
-			case r.err != nil && len(answer) > 900:
-				h.out.Count("exchange:oversize-response-refused")
-			case r.err != nil || (!bytes.Equal(r.b, answer) && !(len(r.b) == 0 && len(answer) == 0)):
-				h.out.OracleFail("C15:exchange-response-altered", fmt.Sprintf("requester received %d bytes (err=%v) for a %d-byte response", len(r.b), r.err, len(answer)), "resp="+vlib.Hex(answer))
-			default:
-				h.out.Count("exchange:ok")
-			}
-		case <-time.After(3 * time.Second):
-			// a datagram lost on loopback cannot be told from a hang here; not a verdict
-			incomplete++
-			h.out.Count("exchange:incomplete")
-			for len(got) > 0 {
-				<-got
-			}
-			_ = req.Close()
-			req, _ = NewRequester(&Config{TransportMethod: UDP, Target: resp.VerifLocalAddr().String(), BaseDomain: domain,
-				Pubkey: encryption.PubkeyFromPrivkey(privkey)})
-		}
-	}
-	if incomplete > 0 {
-		h.out.Note(fmt.Sprintf("exchange: %d of %d did not complete within 3 s (not counted)", incomplete, n))
-	}
-	_ = req.Close()
+	pc.Close()
+	// in memory: every request length, nothing can be lost
+	h.newLink(t, privkey, domain, true).run(true, vlib.Budget(60, 1500))
+	// over a real UDP socket on loopback
+	h.newLink(t, privkey, domain, false).run(vlib.Tier() == "thorough", vlib.Budget(25, 300))
 }
 
 // ---------------------------------------------------------------------------------------------
@@ -1497,20 +2004,75 @@ func (h *c15) obfuscators() {
 					}
 				}
 			}
-			// fresh encodings: never the same bytes twice
-			if v.name == "ctr" || v.name == "gcm" || (v.name == "xor" && n >= 16) {
+			// fresh encodings: never the same bytes twice. An XOR tag of n bytes has only 2^8n encodings:
+			// from 4 bytes on a repetition among 7 draws is a defect (chance below 2^-27); for 1..3 bytes
+			// only an encoder that never varies is (7 equal draws: chance at most 2^-48)
+			if v.name == "ctr" || v.name == "gcm" || (v.name == "xor" && n >= 1) {
 				seenCT := map[string]bool{string(ct): true}
+				repeated := false
 				for k := 0; k < 6; k++ {
 					c2, e2 := v.o.Obfuscate(pt, kp.pub)
 					h.out.Checked()
 					if e2 != nil {
-						continue
-					}
-					if seenCT[string(c2)] {
-						h.out.OracleFail("C15:obfuscator-not-fresh", v.name+": two obfuscations of one tag are byte-identical", line)
+						h.out.OracleFail("C15:obfuscator-rejects-representable", v.name+": a repeated Obfuscate of the same valid tag and key fails: "+e2.Error(), line)
 						break
 					}
+					if seenCT[string(c2)] {
+						repeated = true
+					}
 					seenCT[string(c2)] = true
+				}
+				if (repeated && (v.name != "xor" || n >= 4)) || len(seenCT) == 1 {
+					h.out.OracleFail("C15:obfuscator-not-fresh", fmt.Sprintf("%s: %d obfuscations of one %d-byte tag gave only %d distinct encodings", v.name, 7, n, len(seenCT)), line)
+				}
+				h.out.Count("obfs:" + v.name + "-fresh")
+			}
+		}
+		// station keys with which X25519 has no valid result (the all-zero key, the other points of low
+		// order): Obfuscate must fail, not encrypt under a key everybody can compute; every other 32-byte
+		// string is a usable key (the expectation comes from curve25519 itself, with an unrelated scalar)
+		for _, hk := range []string{
+			"0000000000000000000000000000000000000000000000000000000000000000",
+			"0100000000000000000000000000000000000000000000000000000000000000",
+			"e0eb7a7c3b41b8ae1656e3faf19fc46ada098deb9c32b1fd866205165f49b800",
+			"5f9c95bca3508c24b1d0b1559c83ef5b04445cc4581c8e86d8224eddd09f1157",
+			"ecffffffffffffffffffffffffffffffffffffffffffffffffffffffffffff7f",
+			"edffffffffffffffffffffffffffffffffffffffffffffffffffffffffffff7f",
+			"eeffffffffffffffffffffffffffffffffffffffffffffffffffffffffffff7f",
+			"ffffffffffffffffffffffffffffffffffffffffffffffffffffffffffffffff",
+			"0900000000000000000000000000000000000000000000000000000000000000",
+		} {
+			if v.name != "ctr" && v.name != "gcm" {
+				break
+			}
+			key := unhex(hk)
+			_, probeErr := curve25519.X25519(kps[0].priv[:], key)
+			for _, n := range []int{0, 1, 32} {
+				pt := h.r.Bytes(n)
+				var ct []byte
+				var err error
+				before := h.withRand(func() { ct, err = v.o.Obfuscate(pt, key) })
+				tb := table{}
+				draws, priv, _, rb := replayDraws(&before, tb)
+				if hsh := tb.addDH(priv, key, key); hsh != nil {
+					if v.name == "ctr" {
+						tb.addCTR(hsh, pt)
+					} else {
+						tb.addSeal(hsh, pt)
+					}
+				}
+				line := fmt.Sprintf("codec|obfs|%s-obf|%s|%d|%s|%d|%s|%s", v.name, joinHex(draws), rb, hx(pt), len(key), hx(key), tb)
+				h.out.Case(line, okOrErr(ct, err), err == nil)
+				h.out.Checked()
+				switch {
+				case probeErr != nil && err == nil:
+					h.out.OracleFail("C15:obfuscator-accepts-low-order-key", v.name+": a station key of low order (no valid shared secret) is accepted", line)
+				case probeErr == nil && err != nil:
+					h.out.OracleFail("C15:obfuscator-rejects-representable", v.name+": Obfuscate fails on a valid tag and a usable key: "+err.Error(), line)
+				case err != nil:
+					h.out.Count("obfs:" + v.name + "-low-order-key-rejected")
+				default:
+					h.out.Count("obfs:" + v.name + "-odd-key-accepted")
 				}
 			}
 		}
@@ -1655,7 +2217,7 @@ func (h *c15) anys() {
 
 // ---------------------------------------------------------------------------------------------
 
-func (h *c15) replay(path string) {
+func (h *c15) replay(t *testing.T, path string) {
 	f, err := os.Open(path)
 	if err != nil {
 		panic(err)
@@ -1669,11 +2231,36 @@ func (h *c15) replay(path string) {
 			continue
 		}
 		p := strings.Split(line, "|")
+		if len(p) >= 2 && p[0] == "exchange" {
+			// exchange|<link>|<request>|<response>: the pair over both links, with a fresh key
+			priv, err := encryption.GeneratePrivkey()
+			if err != nil {
+				t.Fatal(err)
+			}
+			for _, mem := range []bool{true, false} {
+				l := h.newLink(t, priv, "t.example.com", mem)
+				req, err := l.newReq()
+				if err != nil {
+					t.Fatal(err)
+				}
+				if len(p) >= 4 {
+					fmt.Printf("replay: %s link: completed=%v\n", l.name, l.exchange(&req, unhex(p[2]), unhex(p[3])))
+				} else {
+					l.run(false, 5)
+				}
+				closeReq(req)
+			}
+			continue
+		}
 		if len(p) < 3 || p[0] != "codec" {
 			fmt.Println("replay: not a codec case:", line)
 			continue
 		}
 		switch p[1] {
+		case "rmreq", "rmresp":
+			h.frameDecode(unhex(p[2]))
+		case "dectxt":
+			h.txtDecode(unhex(p[2]))
 		case "addreq":
 			h.frameReq(unhex(p[2]))
 		case "addresp":
@@ -1727,7 +2314,7 @@ func TestVerifC15(t *testing.T) {
 	defer out.Close()
 	h := &c15{out: out, r: vlib.NewRand("C15")}
 	if rp := vlib.Replay(); rp != "" {
-		h.replay(rp)
+		h.replay(t, rp)
 		return
 	}
 	h.frames()
@@ -1745,9 +2332,10 @@ func TestVerifC15(t *testing.T) {
 		h.queryNames(resp, dom)
 		resp.Close()
 	} else {
-		out.Note("query-name cases skipped: " + err.Error())
+		// a clause of the property that is not exercised must not look like a pass
+		t.Fatalf("the query-name clause cannot be exercised: responder.NewDnsResponder: %v", err)
 	}
 	h.obfuscators()
 	h.anys()
-	h.exchange(t, priv, domain)
+	h.exchanges(t, priv, domain)
 }
